@@ -83,7 +83,7 @@ type interpreter struct {
 	mode               Mode                   // interpreter options
 	runtimeErrorString types.Type             // the runtime.errorString type
 	sizes              types.Sizes            // the effective type-sizing function
-	globalInit         map[*ssa.Global]value  // snapshot of globals after package init (deep copy)
+	globalList         []*ssa.Global
 }
 
 type deferred struct {
@@ -123,6 +123,9 @@ func (fr *frame) get(key ssa.Value) value {
 		if r, ok := fr.i.globals[key]; ok {
 			return r
 		}
+		cell := zero(mustDeref(key.Type()))
+		fr.i.globals[key] = &cell
+		return &cell
 	}
 	if r, ok := fr.env[key]; ok {
 		return r
@@ -413,6 +416,32 @@ func visitInstr(fr *frame, instr ssa.Instruction) continuation {
 	return kNext
 }
 
+// visitInstrInit is visitInstr during package initialisation: an engine-level failure of one
+// instruction (an operation on an opaque token of an unmodelled library) makes the
+// instruction's result opaque instead of failing the run.
+func visitInstrInit(fr *frame, instr ssa.Instruction) (k continuation) {
+	defer func() {
+		r := recover()
+		if r == nil {
+			return
+		}
+		switch r.(type) {
+		case pathAbort, gorKill, targetPanic, rtPanic:
+			panic(r)
+		}
+		if _, isIf := instr.(*ssa.If); isIf {
+			fr.prevBlock, fr.block = fr.block, fr.block.Succs[1]
+			k = kJump
+			return
+		}
+		if v, ok := instr.(ssa.Value); ok {
+			fr.env[v] = opaque{"init"}
+		}
+		k = kNext
+	}()
+	return visitInstr(fr, instr)
+}
+
 // prepareCall determines the function value and argument values for a
 // function call in a Call, Go or Defer instruction, performing
 // interface method lookup if needed.
@@ -591,8 +620,17 @@ func runFrame(fr *frame) {
 					panic(pathAbort{"budget", fmt.Sprintf("instruction budget %d exhausted in %s", EX.Lim.MaxSteps, fr.fn)})
 				}
 			}
-			if visitInstr(fr, instr) == kReturn {
+			var k continuation
+			if fr.i.initializing {
+				k = visitInstrInit(fr, instr)
+			} else {
+				k = visitInstr(fr, instr)
+			}
+			if k == kReturn {
 				return
+			}
+			if k == kJump {
+				break
 			}
 			// Inv: kNext (continue) or kJump (last instr)
 		}
